@@ -164,6 +164,7 @@ class VCluster:
         self.config = None
         self.step_no = 0
         self.squeue_noise = []
+        self.epoch = 0             # number of resubmissions prepared so far (prepare_for_resubmission calls)
         self._patched = []
 
     # ------------------------------------------------------------------ logging of events
@@ -460,6 +461,33 @@ class VCluster:
         wrap(js.JobSubmitter, "write_results_summary",
              before=lambda s, fn, missing: vc.log("summary", vc.cur().pid, tuple(sorted(jid(m) for m in missing)),
                                                   tuple(sorted((jid(r.name), r.return_code, r.status) for r in s._results))))
+
+        # ---- sections in which JADE mutates shared files without their lock by design (lockset audit, DESIGN 5.4)
+        def section(cls, name, tag):
+            orig = getattr(cls, name)
+            fn = getattr(orig, "__func__", orig)
+            is_cm = getattr(orig, "__self__", None) is cls
+
+            def w(first, *a, **kw):
+                inside = getattr(_tls, "pid", None) in vc.procs
+                if inside:
+                    vc.log("sect", vc.cur().pid, tag, "begin")
+                try:
+                    return fn(first, *a, **kw)
+                finally:
+                    if inside:
+                        vc.log("sect", vc.cur().pid, tag, "end")
+            patch(cls, name, classmethod(w) if is_cm else w)
+
+        section(C, "create", "create")
+        section(C, "prepare_for_resubmission", "prepare")
+        section(ra.ResultsAggregator, "clear_results_for_resubmission", "reset")
+
+        def on_prepare(s, rerun, updated):
+            vc.epoch += 1
+            vc.log("prepare", vc.cur().pid, tuple(sorted(jid(x) for x in rerun)),
+                   tuple(sorted((jid(k), tuple(sorted(jid(b) for b in v))) for k, v in updated.items())))
+        wrap(C, "prepare_for_resubmission", before=on_prepare)
         logging.disable(logging.CRITICAL)
         self._saved_environ = dict(os.environ)
         self._saved_stdout = sys.stdout
@@ -505,19 +533,21 @@ class VCluster:
                 i = command[command.index("-j") + 1]
                 b = self.slurm.get(int(i)) if i.isdigit() else None
                 if b and b["state"] in ("pending", "running"):
-                    lines.append(f"{i} {b['name']} {'PENDING' if b['state'] == 'pending' else 'RUNNING'}")
+                    lines.append(f"{i} {b['name']} {b.get('odd') or ('PENDING' if b['state'] == 'pending' else 'RUNNING')}")
                 out = "\n".join(lines)
             else:
                 for i, b in sorted(self.slurm.items()):
+                    # `odd`: a state word of real SLURM outside JADE's table (SUSPENDED, REQUEUED, ...) under
+                    # which a batch that is still alive is listed for a while (set_odd)
                     if b["state"] == "pending":
-                        lines.append(f"{i}  {b.get('word') or 'PENDING'}")
+                        lines.append(f"{i}  {b.get('odd') or b.get('word') or 'PENDING'}")
                     elif b["state"] == "running":
-                        lines.append(f"{i}  {b.get('word') or 'RUNNING'}")
+                        lines.append(f"{i}  {b.get('odd') or b.get('word') or 'RUNNING'}")
                     elif b.get("word"):
                         lines.append(f"{i}  {b['word']}")
                 lines += self.squeue_noise
                 out = "\n".join(lines) + ("\n" if lines else "")
-            self.log("squeue", p.pid, tuple(l.split()[0] for l in lines))
+            self.log("squeue", p.pid, tuple(l.split()[0] for l in lines), tuple(l.split()[-1] for l in lines))
             return 0, out, ""
         if c0 == "scancel":
             i = int(command[1])
@@ -576,9 +606,15 @@ class VCluster:
             groups = tuple(sorted({j["submission_group"] for j in data["jobs"]}))
             acct = re.search(r"--account=(\S+)", text).group(1)
             info.update(argv=argv, jobs=jobs, groups=groups, account=acct, name=re.search(r"--job-name=(\S+)", text).group(1))
+            tm = re.search(r"^#SBATCH --time=(\S+)", text, flags=re.M)
+            pt = re.search(r"^#SBATCH --partition=(\S+)", text, flags=re.M)
+            npr = [a.split("=", 1)[1] for a in argv if a.startswith("--num-parallel-processes-per-node=")]
+            info.update(time=tm.group(1) if tm else None, partition=pt.group(1) if pt else None,
+                        nprocs=int(npr[0]) if npr else None)
         except Exception as e:  # noqa
             info["parse_error"] = f"{type(e).__name__}: {e}"
             argv, jobs = None, ()
+        self.log("sbatchinfo", p.pid, bidx, {k: info.get(k) for k in ("account", "time", "partition", "nprocs", "name", "parse_error")})
         if failing:
             self.log("sbatch", p.pid, bidx, None, info.get("jobs", ()), info.get("groups", ()), info.get("account"))
             p.sbatch_failed = getattr(p, "sbatch_failed", set()) | {script}
@@ -588,7 +624,7 @@ class VCluster:
         hid = self.next_hpc
         self.next_hpc += 1
         self.slurm[hid] = {"batch": bidx, "argv": argv, "state": "pending", "node": None, "name": info.get("name", "?"),
-                           "jobs": jobs, "word": None}
+                           "jobs": jobs, "word": None, "odd": None}
         self.log("sbatch", p.pid, bidx, hid, info.get("jobs", ()), info.get("groups", ()), info.get("account"))
         return 0, f"Submitted batch job {hid}\n", ""
 
@@ -611,9 +647,29 @@ class VCluster:
         from jade.cli.cancel_jobs import cancel_jobs
         return cancel_jobs.callback(self.out, complete, False)
 
-    def _entry_resubmit(self, failed, missing, successful):
+    def _entry_resubmit(self, failed, missing, successful, groups_file=None):
         from jade.cli.resubmit_jobs import resubmit_jobs
-        return resubmit_jobs.callback(self.out, failed, missing, successful, None, False)
+        return resubmit_jobs.callback(self.out, failed, missing, successful, groups_file, False)
+
+    def edited_groups_file(self, tag, groups, max_nodes):
+        """what the user does before `resubmit-jobs -s FILE`: `jade config save-submission-groups` (a copy of
+        submitter_groups.json of the output directory), then edit the parameters.  `groups`: scenario-style group
+        dicts (jadeenv), same length and names as the original."""
+        from jadeenv import walltime_str
+        data = json.load(REAL_OPEN(os.path.join(self.out, "submitter_groups.json")))
+        for gi, (d, g) in enumerate(zip(data, groups)):
+            sp = d["submitter_params"]
+            sp["per_node_batch_size"] = g["batchSize"]
+            sp["time_based_batching"] = g["timeBased"]
+            sp["try_add_blocked_jobs"] = g["tryAdd"]
+            sp["num_parallel_processes_per_node"] = g.get("procs")
+            sp["max_nodes"] = max_nodes
+            sp["hpc_config"]["hpc"]["walltime"] = walltime_str(g["wallSec"])
+            sp["hpc_config"]["hpc"]["partition"] = g.get("partition")
+        path = os.path.abspath(os.path.join(self.out, "..", f"groups-{tag}.json"))
+        with REAL_OPEN(path, "w") as f:
+            json.dump(data, f, indent=2)
+        return path
 
     def _entry_showstatus(self):
         from jade.cli.show_status import show_status
@@ -641,17 +697,35 @@ class VCluster:
         os.makedirs(scratch, exist_ok=True)
         env = {"SLURM_JOB_ID": str(hid), "SLURM_NODEID": "0", "LOCAL_SCRATCH": os.path.abspath(scratch),
                "SLURM_CPUS_ON_NODE": str(self.sc.get("cpus", 4))}
-        p = self.spawn("node", f"node{hid}", lambda: self._entry_node(b["argv"]), env=env)
+        # sharedHosts: nodes are not exclusive - several batches of the submission run on the same host (same hostname)
+        host = f"node{hid % 2}" if self.sc.get("sharedHosts") else f"node{hid}"
+        p = self.spawn("node", host, lambda: self._entry_node(b["argv"]), env=env)
         p.batch = b["batch"]
         p.hpc_id = hid
         b["state"] = "running"
+        b["odd"] = None            # released by the scheduler: RUNNING
         b["node"] = p.pid
         self.log("startbatch", hid, b["batch"], p.pid)
         return p
 
+    # state words of real SLURM (squeue %T / --Format state) that JADE's five-entry table does not know and
+    # under which a batch is still alive: it holds or will again hold its node and may still run its jobs
+    ODD_PENDING = ("REQUEUED", "REQUEUE_HOLD", "REQUEUE_FED", "RESV_DEL_HOLD", "SPECIAL_EXIT", "SUSPENDED")
+    ODD_RUNNING = ("SUSPENDED", "STOPPED", "SIGNALING", "RESIZING", "STAGE_OUT")
+
+    def set_odd(self, hid, word):
+        """the scheduler lists the (pending or running) batch under `word` from now on; None = its normal word again"""
+        b = self.slurm[hid]
+        self.step_no += 1
+        if b["state"] in ("pending", "running"):
+            b["odd"] = word
+            self.log("oddstate", hid, word, b["state"])
+
     def job_exit(self, jp):
         self.step_no += 1
-        rc = next(j["rc"] for j in self.sc["jobs"] if jname(j["id"]) == jp.name)
+        j = next(j for j in self.sc["jobs"] if jname(j["id"]) == jp.name)
+        rcs = j.get("rcs")          # exit code per resubmission epoch (a rerun may end differently)
+        rc = rcs[min(self.epoch, len(rcs) - 1)] if rcs else j["rc"]
         jp.exited = rc
         self.log("jobexit", jp.node, jp.name, rc)
 
